@@ -7,7 +7,13 @@ For every container the tie runs identical random operation histories through
   (c) the Coq model (vm_compute inside coqc) -> correspondence,
 and compares every return value and the full observable state after every step.
 """
+import os
+import sys
+
 import vf
+
+sys.path.insert(0, os.path.join(vf.VERIF, "gen"))
+import c34_oracle as orc  # noqa: E402
 
 META = {
     "id": "C34",
@@ -207,11 +213,31 @@ def bv_check_one(ctx, ops):
     return impl
 
 
+def oracle_compare(ctx, what, exe, lines, expected, metas):
+    """Feed `lines` to the extracted model, compare token-wise with `expected` (lists of ints).
+    Returns the number of agreements; disagreements go to ctx.broken (first 5)."""
+    try:
+        answers = ctx.oracle(exe, lines)
+    except Exception as e:
+        ctx.broken.append("correspondence:%s extracted model crashed" % what)
+        ctx.notes.append(str(e)[-2000:])
+        return 0
+    agree, shown = 0, 0
+    for ans, exp, meta in zip(answers, expected, metas):
+        if ans.split() == [str(i) for i in exp]:
+            agree += 1
+        elif shown < 5:
+            shown += 1
+            ctx.broken.append("correspondence:%s on ops %r" % (what, meta))
+    return agree
+
+
 def run_bitvector(ctx, histories=None):
-    nseq = ctx.n(400, 20000)
-    cases, metas = [], []
+    nseq = ctx.n(3000, 60000)
+    nvm = ctx.n(16, 120)
     if histories is None:
         histories = [gen_bv_ops(ctx.rng, ctx.rng.choice([3, 6, 12, 25])) for _ in range(nseq)]
+    done = []
     for ops in histories:
         impl = bv_check_one(ctx, ops)
         if impl is None:
@@ -221,17 +247,33 @@ def run_bitvector(ctx, histories=None):
         ctx.count("bv_ops", len(ops))
         for o in ops:
             ctx.count("bv_" + o[0])
-        cases.append("trace_eqb (bv_trace bv_iand [[]; []; []] %s) %s" % (bv_ops_coq(ops), bv_trace_coq(impl)))
-        metas.append(ops)
+        done.append((ops, impl))
+    ctx.log("BitVector: implementation judged on %d histories" % len(done))
+    # volume path: extracted model
     try:
-        bad = ctx.coq_failing(HEADER, cases, name="bv", shard=60)
+        exe = ctx.ocaml_oracle("c34bv", orc.BV_EXTRACT, orc.BV_DRIVER)
+    except RuntimeError as e:
+        ctx.broken.append("correspondence:BitVector model does not extract")
+        ctx.notes.append(str(e)[-2000:])
+        exe = None
+    if exe:
+        ctx.cov["bv_model_vs_impl_agree"] = oracle_compare(
+            ctx, "BitVectorModel (extracted) vs problog.util.BitVector", exe,
+            [orc.line("T", orc.bv_ops_ints(ops)) for ops, _ in done],
+            [orc.bv_ser_trace(impl) for _, impl in done], [ops for ops, _ in done])
+    ctx.log("BitVector: extracted model compared")
+    # zero-glue path: the same comparison by vm_compute inside coqc, on a sample
+    sample = [d for d in done if len(d[0]) <= 8][:nvm]
+    cases = ["trace_eqb (bv_trace bv_iand [[]; []; []] %s) %s" % (bv_ops_coq(ops), bv_trace_coq(impl)) for ops, impl in sample]
+    try:
+        bad = ctx.coq_failing(HEADER, cases, name="bv", shard=4)
     except RuntimeError as e:
         ctx.broken.append("correspondence:BitVector model does not evaluate")
         ctx.notes.append(str(e))
         return
-    ctx.cov["bv_model_vs_impl_agree"] = len(cases) - len(bad)
+    ctx.cov["bv_model_vs_impl_agree_vm_compute"] = len(cases) - len(bad)
     for i in bad[:5]:
-        ctx.broken.append("correspondence:BitVectorModel vs problog.util.BitVector on ops %r" % (metas[i],))
+        ctx.broken.append("correspondence:BitVectorModel vs problog.util.BitVector on ops %r" % (sample[i][0],))
 
 
 # ------------------------------------------------------------------ OrderedSet
@@ -490,10 +532,11 @@ def os_check_one(ctx, ops):
 
 
 def run_orderedset(ctx, histories=None):
-    nseq = ctx.n(1500, 60000)
-    cases, metas = [], []
+    nseq = ctx.n(3000, 60000)
+    nvm = ctx.n(16, 120)
     if histories is None:
         histories = [gen_os_ops(ctx.rng, ctx.rng.choice([4, 8, 16, 30])) for _ in range(nseq)]
+    done = []
     for ops in histories:
         impl = os_check_one(ctx, ops)
         if impl is None:
@@ -506,23 +549,47 @@ def run_orderedset(ctx, histories=None):
         ctx.count("os_ops", len(ops))
         for o in ops:
             ctx.count("os_" + o[0])
-        opsc = os_ops_coq(ops)
+        done.append((ops, impl, spec))
+    try:
+        exe = ctx.ocaml_oracle("c34os", orc.OS_EXTRACT, orc.OS_DRIVER)
+    except RuntimeError as e:
+        ctx.broken.append("correspondence:OrderedSet model does not extract")
+        ctx.notes.append(str(e)[-2000:])
+        exe = None
+    if exe:
+        metas = [ops for ops, _, _ in done]
         # (1) pointer model = implementation, step by step
+        ctx.cov["os_model_vs_impl_agree"] = oracle_compare(
+            ctx, "OrderedSetModel (extracted) vs problog.util.OrderedSet", exe,
+            [orc.line("T", orc.os_ops_ints(ops)) for ops in metas],
+            [orc.os_ser_trace(impl) for _, impl, _ in done], metas)
+        # (2) Coq list specification (right-hand side of C34_oset_refines) = python reference
+        ctx.cov["os_coqspec_vs_pyspec_agree"] = oracle_compare(
+            ctx, "Coq list specification srun vs python reference", exe,
+            [orc.line("S", orc.os_ops_ints(ops)) for ops in metas],
+            [orc.os_ser_spec(spec) for _, _, spec in done], metas)
+        # (3) dict order of self.map (checked equal to iteration order on the real object) = model's map order
+        ctx.cov["os_dict_order_agree"] = oracle_compare(
+            ctx, "OrderedSetModel dict order vs list(s.map)", exe,
+            [orc.line("M", orc.os_ops_ints(ops)) for ops in metas],
+            [[len(impl[-1][1])] + [x for (it, _, _) in impl[-1][1] for x in [len(it)] + list(it)] for _, impl, _ in done], metas)
+    sample = [d for d in done if len(d[0]) <= 8][:nvm]
+    cases, metas = [], []
+    for ops, impl, spec in sample:
+        opsc = os_ops_coq(ops)
         cases.append("otrace_eqb (otrace oregs0 %s) %s" % (opsc, os_trace_coq(impl)))
         metas.append(("model", ops))
-        # (2) Coq list specification (the right-hand side of C34_oset_refines) = python reference
         cases.append("(let '(ls, outs) := srun %s in all2 keys_eqb ls %s && all2 oout_eqb outs %s)"
                      % (opsc, vf.coq_list([os_keys_coq(i) for (i, _, _) in spec[-1][1]]) if spec else "[[]; []; []]",
                         vf.coq_list([os_out_coq(o) for (o, _) in spec])))
         metas.append(("spec", ops))
     try:
-        bad = ctx.coq_failing(OS_HEADER, cases, name="os", shard=150)
+        bad = ctx.coq_failing(OS_HEADER, cases, name="os", shard=8)
     except RuntimeError as e:
         ctx.broken.append("correspondence:OrderedSet model does not evaluate")
         ctx.notes.append(str(e))
         return
-    ctx.cov["os_model_vs_impl_agree"] = sum(1 for m in metas if m[0] == "model") - sum(1 for i in bad if metas[i][0] == "model")
-    ctx.cov["os_coqspec_vs_pyspec_agree"] = sum(1 for m in metas if m[0] == "spec") - sum(1 for i in bad if metas[i][0] == "spec")
+    ctx.cov["os_agree_vm_compute"] = len(cases) - len(bad)
     for i in bad[:5]:
         if metas[i][0] == "model":
             ctx.broken.append("correspondence:OrderedSetModel vs problog.util.OrderedSet on ops %r" % (metas[i][1],))
@@ -691,11 +758,12 @@ def uh_check_one(ctx, identity, ops):
 
 
 def run_uheap(ctx, histories=None):
-    nseq = ctx.n(1500, 60000)
-    cases, metas = [], []
+    nseq = ctx.n(3000, 60000)
+    nvm = ctx.n(16, 120)
     if histories is None:
         histories = [gen_uh_ops(ctx.rng, ctx.rng.choice([4, 8, 16, 30])) for _ in range(nseq)]
     univ = vf.coq_list([vf.coq_N(x) for x in UH_ITEMS])
+    done = []
     for identity, ops in histories:
         impl = uh_check_one(ctx, identity, ops)
         if impl is None:
@@ -710,21 +778,40 @@ def run_uheap(ctx, histories=None):
         ctx.count("uh_maxlen_%d" % max([len(h) for (_, (h, _)) in impl] + [0]))
         for o in ops:
             ctx.count("uh_" + o[0])
-        opsc = uh_ops_coq(ops)
+        done.append((ops, impl))
+    try:
+        exe = ctx.ocaml_oracle("c34uh", orc.UH_EXTRACT, orc.UH_DRIVER)
+    except RuntimeError as e:
+        ctx.broken.append("correspondence:UHeap model does not extract")
+        ctx.notes.append(str(e)[-2000:])
+        exe = None
+    if exe:
+        metas = [ops for ops, _ in done]
         # (1) array+index model = implementation (full _heap and _index after every step)
+        ctx.cov["uh_model_vs_impl_agree"] = oracle_compare(
+            ctx, "UHeapModel (extracted) vs problog.util.UHeap", exe,
+            [orc.line("T", [len(UH_ITEMS)] + UH_ITEMS + [len(ops)] + orc.uh_ops_ints(ops)) for ops in metas],
+            [orc.uh_ser_trace(impl) for _, impl in done], metas)
+        # (2) the answers of the implementation are accepted by the Coq specification of C34_heap_inv
+        ctx.cov["uh_impl_accepted_by_coq_spec"] = oracle_compare(
+            ctx, "answers of problog.util.UHeap rejected by the Coq specification sp_accepts", exe,
+            [orc.line("A", [len(ops)] + orc.uh_ops_ints(ops) + [x for (o, _) in impl for x in orc.uh_ser_out(o)]) for ops, impl in done],
+            [[1] for _ in done], metas)
+    sample = [d for d in done if len(d[0]) <= 8][:nvm]
+    cases, metas = [], []
+    for ops, impl in sample:
+        opsc = uh_ops_coq(ops)
         cases.append("utrace_eqb (utrace %s uheap_empty %s) %s" % (univ, opsc, uh_trace_coq(impl)))
         metas.append(("model", ops))
-        # (2) the answers of the implementation are accepted by the Coq specification of C34_heap_inv
         cases.append("sp_accepts [] %s %s" % (opsc, vf.coq_list([uh_out_coq(o) for (o, _) in impl])))
         metas.append(("spec", ops))
     try:
-        bad = ctx.coq_failing(UH_HEADER, cases, name="uh", shard=150)
+        bad = ctx.coq_failing(UH_HEADER, cases, name="uh", shard=8)
     except RuntimeError as e:
         ctx.broken.append("correspondence:UHeap model does not evaluate")
         ctx.notes.append(str(e))
         return
-    ctx.cov["uh_model_vs_impl_agree"] = sum(1 for m in metas if m[0] == "model") - sum(1 for i in bad if metas[i][0] == "model")
-    ctx.cov["uh_impl_accepted_by_coq_spec"] = sum(1 for m in metas if m[0] == "spec") - sum(1 for i in bad if metas[i][0] == "spec")
+    ctx.cov["uh_agree_vm_compute"] = len(cases) - len(bad)
     for i in bad[:5]:
         if metas[i][0] == "model":
             ctx.broken.append("correspondence:UHeapModel vs problog.util.UHeap on ops %r" % (metas[i][1],))
